@@ -277,10 +277,9 @@ theorem member_iff_gitignore (pats : List String) (cl : Bool) (fs : FS) (n : Nat
   member_iff (gitCfg pats cl) fs n roots cwd p c hcwd h hn
 
 open CbiVerif.Path CbiVerif.FS CbiVerif.CB CbiVerif.CBGit in
-/-- `C09.iter_exact` with the pattern semantics inside -/
+/-- `C09.iter_exact` with the pattern semantics inside (any list of code-base directories: equal, nested, in any order) -/
 theorem iter_exact_gitignore (pats : List String) (cl : Bool) (fs : FS) (n : Nat) (roots l : List Path.Comps)
     (hwf : wf fs = true) (hfuel : bigFuel fs n)
-    (hroots : roots.Pairwise (fun a b => ¬ a <+: b ∧ ¬ b <+: a))
     (hnf : ∀ r ∈ roots, lstat fs r ≠ some .file)
     (h : iter (gitCfg pats cl) fs n roots = .ok l) :
     (∀ x ∈ l, contains (gitCfg pats cl) fs n roots [] ⟨true, x⟩ = .ok true) ∧
@@ -288,7 +287,7 @@ theorem iter_exact_gitignore (pats : List String) (cl : Bool) (fs : FS) (n : Nat
     (∀ x ∈ l, namei fs n [] x ≠ .ok x →
         ∃ t, lstat fs x = some (.link t) ∧
           ((∃ c, namei fs n [] x = .ok c ∧ memberSpec (gitCfg pats cl) fs roots c) ∨ escapes fs n [] ⟨true, x⟩)) :=
-  iter_exact (gitCfg pats cl) fs n roots l hwf hfuel hroots hnf h
+  iter_exact (gitCfg pats cl) fs n roots l hwf hfuel hnf h
 
 open CbiVerif.CB CbiVerif.CBGit in
 /-- non-vacuity: the example tree of `Props/C09.lean` with the pattern list `sub/`, `!b.h`, `*.txt` -/
